@@ -204,7 +204,7 @@ def compare_events(exp_log, closure, targets, got_events, ok):
     if ok:
         scope = [e for e in got_events if e[0] == "check_scope"]
         if len(scope) != 1 or scope[0][1] != frozenset(targets) or scope[0][2] != frozenset(closure):
-            diff.append(("scope of the cross-definition checks", [list(map(sorted, map(list, s[1:]))) for s in scope], sorted(targets), sorted(closure)))
+            diff.append(("scope of the cross-definition checks", [[sorted(list(x), key=repr) for x in s[1:]] for s in scope], sorted(targets, key=repr), sorted(closure, key=repr)))
     return diff
 
 def expected(out):
@@ -246,7 +246,7 @@ def compare(exp, got, entry, targets):
     if entry == "files" and got["transitive"] != exp["transitive"]:
         diff.append(("generic", ("transitive", got["transitive"], exp["transitive"])))
     if got["links"] != exp["links"]:
-        diff.append(("generic", ("reference links", sorted(got["links"] ^ exp["links"]))))
+        diff.append(("generic", ("reference links", sorted(got["links"] ^ exp["links"], key=repr))))
     if not got["names_ok"]:
         diff.append(("generic", ("name/version of a returned type does not match its file",)))
     return diff
@@ -311,11 +311,11 @@ def _strip(g):
     g.pop("text", None)
     g["events"] = [e for e in g.get("events", []) if e[0] != "check_scope"]
     if "links" in g:
-        g["links"] = sorted(g["links"])
+        g["links"] = sorted(g["links"], key=repr)
     return g
 
 def _show(g):
-    return {k: (sorted(v) if isinstance(v, set) else v) for k, v in g.items()}
+    return {k: (sorted(v, key=repr) if isinstance(v, set) else v) for k, v in g.items()}
 
 def run_cfg(ctx, cfg, entry, sample_mod=1, paired=False, focus=None, tag="rd"):
     from . import tlc
